@@ -119,8 +119,10 @@ func (c *caseRun) randomOp(nRemotes int) {
 		c.doDeliver(r.Intn(nRemotes), r.Chance(60))
 	case x < 86:
 		c.doDel(c.pick(), r.Chance(30))
-	case x < 94:
+	case x < 93:
 		c.doRun()
+	case x < 96:
+		c.doCrash()
 	default:
 		c.doRestart()
 	}
@@ -182,6 +184,16 @@ func (c *caseRun) scenario(id int) {
 		c.doPut(1)
 		c.doFetch(1)
 		c.doHead(0)
+	case 6: // crash inside a worker pass: parent marked Deleted, bound children not yet handled
+		c.doPut(0)
+		c.doPut(1)
+		c.doPut(2)
+		c.doEdit(1)
+		c.doRec(0, []int{0}, false)
+		c.doDeliver(0, true)
+		c.doCrash()
+		c.doRun()
+		c.doRestart()
 	case 5: // deletion while the fetch is parked, worker has not run yet
 		c.doFetchStart(0)
 		c.doRec(0, []int{0}, true)
@@ -193,9 +205,9 @@ func (c *caseRun) scenario(id int) {
 }
 
 func Run(r *corr.Run) {
-	r.SetRule("a case = a fresh space (real any-store) with 3..6 objects (some bound to a parent), 1..2 remote settings authors, and a sequence of 20..60 steps from {put, fetch, fstart/ffin, edit, head, rec (plain/snapshot), xfer, deliver (closed prefix / arbitrary subset, shuffled), del, run, restart}; 6 scripted guard scenarios (fetch race, late child, restart between queued and deleted, snapshot root, tombstone before creation, deletion during a parked fetch) each continued randomly; non-trivial = a tombstone was reached; distinct = distinct model-protocol traces")
+	r.SetRule("a case = a fresh space (real any-store) with 3..6 objects (some bound to a parent), 1..2 remote settings authors, and a sequence of 20..60 steps from {put, fetch, fstart/ffin, edit, head, rec (plain/snapshot), xfer, deliver (closed prefix / arbitrary subset, shuffled), del, run, crash (worker pass cut after its first id, then restart), restart}; 7 scripted guard scenarios (fetch race, late child, restart between queued and deleted, snapshot root, tombstone before creation, deletion during a parked fetch, crash inside a worker pass) each continued randomly; non-trivial = a tombstone was reached; distinct = distinct model-protocol traces")
 	// scripted scenarios first (all parents variants relevant to them)
-	for id := 0; id < 6 && r.TimeLeft(); id++ {
+	for id := 0; id < 7 && r.TimeLeft(); id++ {
 		for variant := 0; variant < 2; variant++ {
 			parents := []int{-1, 0, 0, -1}
 			if variant == 1 {
